@@ -7,19 +7,11 @@ Require Import BFL.Ops BFL.C07_Model BFL.C06_Model.
 Require Import Extraction ExtrOcamlBasic.
 Import ListNotations.
 
-Definition c06_trace (S : SOps) (Nf : nat) (st : @sis_state S (list (T S)) nat) (evs : list (@event S (list (T S)) nat))
+Definition c06_trace (S : SOps) (Nf : nat) (st : @sis_state S (list (T S)) nat) (evs : list (@event S (list (T S))))
   : list (@sis_state S (list (T S)) nat) := sis_trace Nf st evs.
 
-(* per step: the corrected set before the resampling test, the decision, the state after the step *)
-Fixpoint c06_trace_full (S : SOps) (Nf : nat) (st : @sis_state S (list (T S)) nat) (evs : list (@event S (list (T S)) nat))
-  : list (@sset S (list (T S)) nat * bool * @sis_state S (list (T S)) nat) :=
-  match evs with
-  | [] => []
-  | ev :: r =>
-      let m := sis_mid st ev in
-      let st' := sis_step Nf st ev in
-      (cor m, needs_resampling Nf (cor m), st') :: c06_trace_full S Nf st' r
-  end.
+Definition c06_trace_full (S : SOps) (Nf : nat) (st : @sis_state S (list (T S)) nat) (evs : list (@event S (list (T S))))
+  : list (@sset S (list (T S)) nat * bool * @sis_state S (list (T S)) nat) := sis_trace_full Nf st evs.
 
 (* the quantities the resampling decision is taken on, per state *)
 Definition c06_neff (S : SOps) (lw : list (T S)) : T S := neff S lw.
